@@ -4,6 +4,8 @@ the Pauli routines and with CliffordCircuit objects, in the event formats of the
   * every top-level public call of the Pauli conversion / algebra routines -> one independent event for Trace_Pauli.tla
   * every PauliOperator <-> dense-matrix conversion                        -> a two-event object trace for Trace_PauliObject.tla
   * every CliffordCircuit object: one trace with an event per public call  -> Trace_CliffordCircuit.tla
+  * Cayley tables, left-regular forms, partition / hook / tableau results  -> Trace_Group.tla
+  * spf2.find_transvection / inverse / from_int_tuple / to_int_tuple, rand_SpF2 -> Trace_Sp.tla
 
 numqi is a sequential library: the linearization point of an operation is the return of the public call, so the recorder logs
 there.  Nothing in /repo is touched - the wrappers are installed by monkey-patching in the test process only, nested library
@@ -15,7 +17,7 @@ OUT = os.environ.get('NUMQI_VERIF_TRACE')
 LET = 'IXYZ'
 MAX_DENSE_QUBITS = 4
 MAX_BATCH_ROWS = 8
-state = dict(depth=0, pauli=[], pobj=[], cliff=[], skipped=0, tests=0)
+state = dict(depth=0, pauli=[], pobj=[], cliff=[], group=[], sp=[], skipped=0, tests=0)
 li = lambda a: [int(x) for x in np.asarray(a).reshape(-1)]
 
 
@@ -200,9 +202,101 @@ def install():
     CC.to_universal_circuit = top_level(CC.to_universal_circuit, log_export)
 
 
+def install_group():
+    """numqi.group: Cayley tables, left-regular forms, partition / tableau counts (Trace_Group) and spf2 routines (Trace_Sp)"""
+    import numqi
+    G = numqi.group
+    gv, sv = state['group'], state['sp']
+
+    def table_logger(kind, has_n):
+        def log(a, kw, ret):
+            T = np.asarray(ret)
+            n = int(a[0] if a else kw.get('n', 0)) if has_n else 0
+            k = kind
+            if kind == 'sym' and (kw.get('alternating') or (len(a) > 1 and a[1])):
+                k = 'alt'
+            if len(T) <= 60:
+                gv.append(dict(op='cayley', kind=k, n=n, T=(T + 1).tolist()))
+            else:
+                state['skipped'] += 1
+        return log
+    for name, kind, has_n in (('get_symmetric_group_cayley_table', 'sym', True), ('get_dihedral_group_cayley_table', 'dih', True), ('get_cyclic_group_cayley_table', 'cyc', True),
+                              ('get_multiplicative_group_cayley_table', 'mul', True), ('get_klein_four_group_cayley_table', 'klein', False), ('get_quaternion_cayley_table', 'quat', False)):
+        setattr(G, name, top_level(getattr(G, name), table_logger(kind, has_n)))
+
+    def log_regular(a, kw, ret):
+        T = np.asarray(a[0])
+        L = np.asarray(ret)
+        N = len(T)
+        if N > 30 or L.shape != (N, N, N) or not (np.all(L.sum(axis=1) == 1) and np.all(L.sum(axis=2) == 1)):
+            state['skipped'] += 1
+            return
+        gv.append(dict(op='regular', T=(T + 1).tolist(), perm=[[int(np.argmax(L[x][:, b])) + 1 for b in range(N)] for x in range(N)]))
+    G.cayley_table_to_left_regular_form = top_level(G.cayley_table_to_left_regular_form, log_regular)
+    G.get_sym_group_num_irrep = top_level(G.get_sym_group_num_irrep, lambda a, kw, ret: gv.append(dict(op='pcount', N=int(a[0]), p=int(ret))) if int(a[0]) <= 60 else None)
+    G.get_sym_group_young_diagram = top_level(G.get_sym_group_young_diagram, lambda a, kw, ret: gv.append(dict(op='partitions', N=int(a[0]), rows=[li(r) for r in ret])) if int(a[0]) <= 12 else None)
+
+    def log_hook(a, kw, ret):
+        if sum(a) <= 12:
+            gv.append(dict(op='hook', shape=[int(x) for x in a], f=int(ret)))
+    G.get_hook_length = top_level(G.get_hook_length, log_hook)
+
+    def log_tableaux(a, kw, ret):
+        shape = [int(x) for x in a[0]]
+        arr = np.asarray(ret)
+        step = max(1, len(arr) // 12)
+        for t in arr[::step]:
+            gv.append(dict(op='tableau', shape=shape, rows=[[int(x) for x in row[:shape[i]]] for i, row in enumerate(t)]))
+    G.get_all_young_tableaux = top_level(G.get_all_young_tableaux, log_tableaux)
+
+    # ---- Sp(2n, F2)
+    sp = G.spf2
+    pack = lambda m: [int(sum(int(b) << k for k, b in enumerate(row))) for row in np.asarray(m)]
+    seen = {}
+
+    def log_ft(a, kw, ret):
+        if len(a[0]) <= 16:
+            sv.append(dict(op='ft', v0=li(a[0]), v1=li(a[1]), h0=li(ret[0]), h1=li(ret[1])))
+    sp.find_transvection = top_level(sp.find_transvection, log_ft)
+
+    def log_inv(a, kw, ret):
+        m = np.asarray(a[0])
+        if len(m) <= 20:
+            sv.append(dict(op='inv', n=len(m) // 2, m=pack(m), mi=pack(ret)))
+    sp.inverse = top_level(sp.inverse, log_inv)
+
+    def log_from(a, kw, ret):
+        m = np.asarray(ret)
+        if len(m) <= 20:
+            seen[m.tobytes()] = [int(x) for x in a[0]]
+            sv.append(dict(op='from_int', n=len(m) // 2, t=[int(x) for x in a[0]], m=pack(m)))
+    sp.from_int_tuple = top_level(sp.from_int_tuple, log_from)
+
+    def log_to(a, kw, ret):
+        m = np.asarray(a[0])
+        if len(m) <= 20:
+            # t0: the tuple this very matrix was built from earlier in the same test process (if any): the round trip must return it
+            sv.append(dict(op='to_int', n=len(m) // 2, m=pack(m), b=[int(x) for x in ret], t0=seen.get(m.astype(np.uint8).tobytes(), [])))
+    sp.to_int_tuple = top_level(sp.to_int_tuple, log_to)
+
+    def log_rand(a, kw, ret):
+        kind = kw.get('return_kind', a[1] if len(a) > 1 else 'matrix')
+        n = int(a[0])
+        if n > 10:
+            return
+        if kind == 'int_tuple-matrix':
+            t, m = ret
+            seen[np.asarray(m).astype(np.uint8).tobytes()] = [int(x) for x in t]
+            sv.append(dict(op='from_int', n=n, t=[int(x) for x in t], m=pack(m)))
+        elif kind == 'matrix':
+            sv.append(dict(op='member', n=n, m=pack(ret)))
+    numqi.random.rand_SpF2 = top_level(numqi.random.rand_SpF2, log_rand)
+
+
 def pytest_configure(config):
     if OUT:
         install()
+        install_group()
 
 
 def pytest_runtest_logreport(report):
@@ -213,5 +307,5 @@ def pytest_runtest_logreport(report):
 def pytest_sessionfinish(session, exitstatus):
     if OUT:
         with open(OUT, 'w') as f:
-            json.dump(dict(pauli=state['pauli'], pobj=state['pobj'], cliff=[t for t in state['cliff'] if t], skipped=state['skipped'],
+            json.dump(dict(pauli=state['pauli'], pobj=state['pobj'], cliff=[t for t in state['cliff'] if t], group=state['group'], sp=state['sp'], skipped=state['skipped'],
                            tests=state['tests'], exitstatus=int(exitstatus)), f)
